@@ -151,7 +151,7 @@ pub fn h_queuer(n: usize, shape: Option<&[(u8, u8, u8)]>) {
             v += 1;
         }
     }
-    vcover!(clean && done_tx.is_none() && q_finished, "clean run: all reported, queuer finished");
+    vcover!(clean && done_tx.is_none() && q_finished, "reach: clean run, all reported, queuer finished");
     vcover!(!clean && q_finished, "aborted run: queuer finished after early sender drop");
     vcover!(s.max_in_flight >= 2, "two functions in flight");
 }
